@@ -3,7 +3,8 @@ import copy, os
 from . import core, eng, engcheck, sgen, surfcheck, tieb, surface as S
 
 THEOREMS = ["expand_hygienic", "ideal_vars", "tagVar_inj", "tagVar_ge", "gensyms_disjoint", "recursive_rejected", "recursive_rejected_msg", "recursive_rejected_heads",
-            "expandBody_total", "expandBody_mono", "f25_fixed", "f25_ideal", "f25_hygienic", "f25_by_theorem", "stdOps_opsLaws", "stdOps_varsLaws", "expand_hygienic_sem", "expand_hygienic_sem_std"]
+            "expandBody_total", "expandBody_mono", "f25_fixed", "f25_ideal", "f25_hygienic", "f25_by_theorem",
+            "branching_disjunction_rejected", "branching_head_rejected", "branching_rule_rejected", "stdOps_opsLaws", "stdOps_varsLaws", "expand_hygienic_sem", "expand_hygienic_sem_std"]
 TRUSTED = ["Lean 4.33.0 kernel", "axioms: propext, Classical.choice, Quot.sound only (audited per theorem)",
            "statement: Props/C08.lean",
            "tools/vlib/surface.py expand_spec (macro bodies pasted with parameters substituted as identifiers / expressions, macro-local identifiers renamed freshly per invocation) "
@@ -72,48 +73,6 @@ def f26_class(p):
         return S.expand_spec(p, bare=True) != S.expand_spec(p)
     except (S.RecursiveMacro, ValueError):
         return False
-
-
-def reaches(p):
-    macros = p.get("macros", [])
-    def calls(items, acc):
-        for it in items:
-            if it[0] == "mac": acc.append(it[1])
-            elif it[0] == "or":
-                for a in it[1]: calls(a, acc)
-        return acc
-    g = {i: set(calls(m.get("body", []) + [h for h in m.get("heads", []) if h[0] == "mac"], [])) for i, m in enumerate(macros)}
-    reach = {i: set(g[i]) for i in g}
-    ch = True
-    while ch:
-        ch = False
-        for i in g:
-            new = set(reach[i])
-            for j in list(reach[i]): new |= reach.get(j, set())
-            if new != reach[i]: reach[i] = new; ch = True
-    return g, reach
-
-
-def f19_class(p):
-    """a macro reaches itself through two or more invocations that sit inside one disjunction of its body"""
-    g, reach = reaches(p)
-    for i, m in enumerate(p.get("macros", [])):
-        if i not in reach[i]: continue
-        def walk(items):
-            for it in items:
-                if it[0] == "or":
-                    n = 0
-                    def count(xs):
-                        c = 0
-                        for x in xs:
-                            if x[0] == "mac" and (x[1] == i or i in reach[x[1]]): c += 1
-                            elif x[0] == "or": c += sum(count(a) for a in x[1])
-                        return c
-                    if sum(count(a) for a in it[1]) >= 2: return True
-                    if any(walk(a) for a in it[1]): return True
-            return False
-        if walk(m.get("body", [])): return True
-    return False
 
 
 # ------------------------------------------------------------------ targeted streams
@@ -221,11 +180,20 @@ def rec_programs():
     return out
 
 
-def f19_witness():
-    p = base_schema()
-    p["macros"] = [{"params": ["ident"], "body": [("or", [[("mac", 0, [("id", ("p", 0))])], [("mac", 0, [("id", ("p", 0))])]])]}]
-    p["rules"] = [{"heads": [(3, [("var", 0)])], "body": [("cl", 1, [("v", 0)], []), ("mac", 0, [("id", 0)])]}]
-    return p
+def branching_witnesses():
+    """[(id, program)]: macros that invoke themselves twice per level (the former class of FM8: 2^50 / 2^100 eager expansions before fix deae510)"""
+    call = ("mac", 0, [("id", ("p", 0))])
+    rule = {"heads": [(3, [("var", 0)])], "body": [("cl", 1, [("v", 0)], []), ("mac", 0, [("id", 0)])]}
+    hrule = {"heads": [("mac", 0, [("id", 0)])], "body": [("cl", 1, [("v", 0)], [])]}
+    out = []
+    def add(i, macro, rl):
+        p = base_schema(); p["macros"] = [macro]; p["rules"] = [copy.deepcopy(rl)]; out.append((i, p))
+    add("branch-disjunction", {"params": ["ident"], "body": [("or", [[call], [call]])]}, rule)
+    add("branch-disjunction-after-clause", {"params": ["ident"], "body": [("or", [[("cl", 1, [("v", ("p", 0))], [])], [call]]), ("or", [[call], [call]])]}, rule)
+    add("branch-nested-disjunction", {"params": ["ident"], "body": [("or", [[("or", [[call], [call]])], [call]])]}, rule)
+    add("branch-head", {"params": ["ident"], "heads": [call, call]}, hrule)
+    add("branch-head-after-clause", {"params": ["ident"], "heads": [(3, [("var", ("p", 0))]), call, call]}, hrule)
+    return out
 
 
 # ------------------------------------------------------------------ build
@@ -308,18 +276,25 @@ def extra(r, d, rng, tier):
         mo = None
         if model is not None: mo = {"ok": "ok", "reject RecursiveMacro": "err " + RECURSIVE_MSG}.get(model[k], model[k])
         d.case(line, got if got is not None else "no-record (timeout or crash)", mo, orc)
-    # FM8: self-reference through a disjunction
-    w = f19_witness()
-    budget = 6 if tier == "quick" else 30
-    outs, timed_out, wall, log = surfcheck.tie_a([("f19", "ascent", surfcheck.tie_a_body(w))], timeout=budget + 60, run_timeout=budget)
-    got = outs.get("f19")
-    r.cov["f19_wall_s"] = round(wall, 1)
-    if got == "err " + RECURSIVE_MSG: pass
-    elif got is None and f19_class(w):
-        r.known("FM8", f"a macro that invokes itself twice inside a disjunction is not rejected: the expansion does not return within {budget} s (eager expansion of every "
-                       "alternative before any error is looked at: about 2^50 expansions until the depth budget of 100 is used up)")
-    else:
-        r.violation({"kind": "failing-input", "input": surfcheck.tie_a_body(w), "impl": got, "why": "recursive macro neither rejected nor in the class of FM8"})
+    # the former class of FM8 (fixed by deae510): a macro that invokes itself TWICE per level — inside one disjunction, in a head macro, behind a first alternative
+    # that expands. Expansion stops at the first error now, so the real pipeline must REJECT these with the documented message, quickly (each is run alone under a
+    # generous time limit as a safety net: a missing record — time limit or crash — is a failure, no longer a known finding), and so must the model
+    budget = 20 if tier == "quick" else 60
+    ws = branching_witnesses()
+    wmodel = None
+    if model is not None:
+        wmodel = core.run_model([f"eng sprog {i.replace('-', '_')} {S.sx_sprog(w)}" for i, w in ws])
+    walls = {}
+    for k, (i, w) in enumerate(ws):
+        outs, timed_out, wall, log = surfcheck.tie_a([(i, "ascent", surfcheck.tie_a_body(w))], timeout=budget + 600, run_timeout=budget)
+        got = outs.get(i)
+        walls[i] = round(wall, 1)
+        def orc(_l, out):
+            return None if out == "err " + RECURSIVE_MSG else f"a macro that invokes itself twice per level must be rejected with `{RECURSIVE_MSG}` within {budget} s, got: {out}"
+        mo = None
+        if wmodel is not None: mo = {"ok": "ok", "reject RecursiveMacro": "err " + RECURSIVE_MSG}.get(wmodel[k], wmodel[k])
+        d.case(f"tie-A {i}: {surfcheck.tie_a_body(w)}", got if got is not None else f"no-record (time limit of {budget} s or crash)", mo, orc)
+    r.cov["branching_recursion_wall_s"] = walls
     if tier == "thorough":
         # one compile by rustc: the rejection must surface as a compile error carrying the documented message
         i, p, _ = progs[0]
@@ -339,6 +314,7 @@ def check(tier, replay=None):
     rule = ("programs with in-program macros (ident / expr parameters; bodies with clauses, ?patterns, negation, conditions attached to clauses and detached, disjunctions, nested invocations; head macros, "
             "nested) x call patterns forced by quota (" + ", ".join(sgen.C08_TAGS) + "; macro-local and call-site variables share their spellings v0, v1, ..) x inputs; program and "
             "printed ideal expansion both compiled by the real macros; targeted streams for the former class of F25 (attached conditions reading / binding macro-locals: fixed by 3a6dc9a, must pass), F26 (expr parameter pasted as raw tokens), F27 (`?None` in a macro body); "
-            "recursive macros (direct, mutual, through heads, inside a disjunction) through the in-process pipeline, FM8 witness under a time budget")
+            "recursive macros (direct, mutual, through heads, inside a disjunction; invoking themselves twice per level in a disjunction / a head: the former class of FM8, each under a time limit) "
+            "through the in-process pipeline")
     return surfcheck.run_surface_property("C08", tier, modules=MODULES, theorems=THEOREMS, trusted=TRUSTED, group="c08", build=build, known=known,
                                           what="programs with macros vs their ideal expansion", rule=rule, extra=extra)
